@@ -624,6 +624,8 @@ def _buffered_readuntil(
             offset = buflen + 1 - seplen
             if offset > limit:
                 msg = "Separator is not found, and chunk exceed the limit"
-                raise LimitOverrunError(msg, buffer, offset, separator)
+                # Only the received bytes must be taken into account: the rest of the buffer is uninitialized (or stale) data.
+                with memoryview(buffer) as buffer_view, buffer_view[:buflen] as received_data:
+                    raise LimitOverrunError(msg, received_data, offset, separator)
 
         buflen += yield buflen
